@@ -1,8 +1,8 @@
 (* Dispatcher for C02: propagate_dft on the group ring Q(i)[C_L]; the case supplies L.
    The wavefront's fields are given directly, or (flag) as the phasors of the plane it was multiplied by.
    op 1: one propagation; op 2: a propagation followed by a propagation of its result (pupil ->
-   image -> pupil); op 3: a history of calls (src, call): src = 0 propagates the initial wavefront,
-   src = j > 0 the result of step j; the model is a pure function, so a wavefront propagated several
+   image -> pupil); op 3: a history of steps on src (0 = the initial wavefront, j > 0 = the result of step j): a
+   propagation, or the multiplication by one more array-valued plane (Field.__mul__ of Model/Field.v); the model is a pure function, so a wavefront propagated several
    times gives what a fresh copy would give.  The square root of the unitary factor is applied by the harness (sq = 1). *)
 From LV Require Import Extract.FieldCodec Model.Propagate.
 Require Import ExtrOcamlBasic.
@@ -41,14 +41,39 @@ Definition ewavefront (L : nat) (w : wavefront (GRS L)) : list Z :=
 Definition call (L : nat) (w : wavefront (GRS L)) (c : callargs) : result (wavefront (GRS L)) :=
   propagate_dft (S := GRS L) (fun _ => gr1 L) no_shift w (c_dur c) (c_duc c) (c_shape c) (c_pshape c) (c_os c) (c_mask c).
 
+(* one step of a history: a propagation, or the multiplication by an array-valued plane given by
+   its phasors (Plane.multiply: for field in data: for phasor: field * phasor, empty products dropped;
+   the result takes the plane's shape and the result type of the multiplication table) *)
+Inductive step (L : nat) :=
+| StProp (src : Z) (c : callargs)
+| StMul (src : Z) (sr sc : Z) (pt : wf_ptype) (ph : list (field (GRS L))).
+Arguments StProp {L}. Arguments StMul {L}.
+
+Definition pstep (L : nat) : parser (step L) :=
+  t <- pZ ;; src <- pZ ;;
+  if src <? 0 then pfail else
+  if t =? 0 then (c <- pcall ;; pret (StProp src c))
+  else if t =? 1 then (sr <- pZ ;; sc <- pZ ;; pt <- pptype ;; ph <- plist (pfield L) ;; pret (StMul src sr sc pt ph))
+  else pfail.
+
+Definition times_plane (L : nat) (sr sc : Z) (pt : wf_ptype) (ph : list (field (GRS L))) (w : wavefront (GRS L))
+  : wavefront (GRS L) :=
+  mkWf (wwl w) (wps w) (wfocal w) (sr, sc) pt
+       (flat_map (fun f => flat_map (fun p => match fmul (S := GRS L) f p with Some x => [x] | None => [] end) ph) (wdata w)).
+
 (* results so far, oldest first *)
-Fixpoint history (L : nat) (w0 : wavefront (GRS L)) (steps : list (Z * callargs))
+Fixpoint history (L : nat) (w0 : wavefront (GRS L)) (steps : list (step L))
          (done : list (result (wavefront (GRS L)))) : list (result (wavefront (GRS L))) :=
   match steps with
   | [] => done
-  | (src, c) :: rest =>
+  | st :: rest =>
+    let src := match st with StProp s _ => s | StMul s _ _ _ _ => s end in
     let w := if src =? 0 then Ok w0 else nth (Z.to_nat (src - 1)) done (Err IndexError) in
-    history L w0 rest (done ++ [rbind w (fun x => call L x c)])
+    let r := match st with
+             | StProp _ c => rbind w (fun x => call L x c)
+             | StMul _ sr sc pt ph => rbind w (fun x => Ok (times_plane L sr sc pt ph x))
+             end in
+    history L w0 rest (done ++ [r])
   end.
 
 Definition run (inp : list Z) : list Z :=
@@ -65,11 +90,8 @@ Definition run (inp : list Z) : list Z :=
       | Some (w, c1, c2) => eresult (ewavefront L) (rbind (call L w c1) (fun w1 => call L w1 c2))
       | None => emalformed end
     else if op =? 3 then
-      match pall (w <- pwavefront L ;; st <- plist (ppair pZ pcall) ;; pret (w, st)) rest with
-      | Some (w, st) =>
-          if forallb (fun sc => (0 <=? fst sc)) st
-          then 0 :: elist (eresult (ewavefront L)) (history L w st [])
-          else emalformed
+      match pall (w <- pwavefront L ;; st <- plist (pstep L) ;; pret (w, st)) rest with
+      | Some (w, st) => 0 :: elist (eresult (ewavefront L)) (history L w st [])
       | None => emalformed end
     else emalformed
   | _ => emalformed
